@@ -43,6 +43,14 @@ class PurityViolation(Exception):
     pass
 
 
+class StopPath(Exception):
+    """a block hook ends the path deliberately (e.g. one loop iteration done)"""
+
+    def __init__(self, value=None):
+        Exception.__init__(self, 'stop')
+        self.value = value
+
+
 class PathResult:
     __slots__ = ('pc', 'kind', 'value', 'panic', 'events', 'script', 'blocks')
 
@@ -122,6 +130,7 @@ class Engine:
         self.max_paths = 20000
         self.opaque_fns = {}       # def-name -> python callable(engine, args) replacing MIR body
         self.model_cache = []
+        self.block_hook = None
 
     # ------------------------------------------------------------------
     # exploration
@@ -153,6 +162,8 @@ class Engine:
                         res = PathResult(list(self.run.pc), 'return', v)
                     except PanicEx as p:
                         res = PathResult(list(self.run.pc), 'panic', panic=p)
+                    except StopPath as sp:
+                        res = PathResult(list(self.run.pc), 'stop', sp.value)
                 finally:
                     self.solver.pop()
                 res.events = self.run.events
@@ -308,6 +319,8 @@ class Engine:
                 if n > self.loop_bound:
                     raise BoundExceeded('block bb%d of %s entered %d times' % (bb, fn.name, n))
                 self.run.blocks.add((fn.name, bb))
+                if self.block_hook is not None:
+                    self.block_hook(self, fr, bb, n)
                 for st in blk['stmts']:
                     stats['steps'] += 1
                     if st[0] == 'assign':
@@ -473,7 +486,9 @@ class Engine:
         if m:
             f = self.prog.get_promoted(fr.fn.name, int(m.group(1)))
             if f is None:
-                return Opaque('promoted', t)
+                if 'CALLSITE' in t or 'META' in t:
+                    return Opaque('promoted', t)
+                raise Unsupported('promoted constant %s of %s not found in the MIR dump' % (t, fr.fn.name))
             key = ('promoted', f.name)
             if key not in self.uni.memo:
                 save = self.frozen_below
@@ -504,6 +519,10 @@ class Engine:
             return False
         if t.startswith('{alloc') or t.startswith('tracing::') or 'CALLSITE' in t:
             return Opaque('static', t)
+        if t.startswith('ZeroSized: {closure@'):
+            return Closure(t[len('ZeroSized: '):], [])
+        if t.startswith('ZeroSized: '):
+            t = t[len('ZeroSized: '):]
         # unit-like enum constant, e.g. `SolverResult::True` never appears as const; fn items do
         return Opaque('fnitem', t)
 
@@ -854,13 +873,24 @@ class Engine:
                         return bb
                 return otherwise
             bits = t.size()
-            conds = [t == z3.BitVecVal(c, bits) for c, _ in cases]
+            # one option per *target block* (cases that jump to the same block are one decision)
+            targets = []
+            by_bb = {}
+            for c, bb in cases:
+                if bb not in by_bb:
+                    by_bb[bb] = []
+                    targets.append(bb)
+                by_bb[bb].append(c)
+            conds = [z3.Or(*[t == z3.BitVecVal(c, bits) for c in by_bb[bb]]) if len(by_bb[bb]) > 1
+                     else t == z3.BitVecVal(by_bb[bb][0], bits) for bb in targets]
             conds.append(z3.Not(z3.Or(*conds)) if conds else True)
             k = self.decide(conds)
-            if k < len(cases):
-                # remember: a later discriminant() of the same term is concrete
-                self.run.known[('disc', v.v.get_id())] = norm_int(cases[k][0], v.ty)
-                return cases[k][1]
+            if k < len(targets):
+                bb = targets[k]
+                if len(by_bb[bb]) == 1:
+                    # remember: a later discriminant() of the same term is concrete
+                    self.run.known[('disc', v.v.get_id())] = norm_int(by_bb[bb][0], v.ty)
+                return bb
             return otherwise
         raise Unsupported('switchInt on %r' % (v,))
 
@@ -1009,7 +1039,7 @@ class Engine:
         if isinstance(v, z3.ExprRef):
             return ('z', v.get_id())
         if isinstance(v, StrV):
-            return ('s', v.s if isinstance(v.s, bytes) else id(v.s))
+            return ('s', S.skey(v.s))
         if isinstance(v, Cont):
             if v.oid < fb or getattr(v, 'persistent', False):
                 return ('O', v.oid)
